@@ -207,5 +207,64 @@ func runC03(c *runCtx) error {
 		c.add(term, sideCase{Class: cls, Nontrivial: nOps >= 3 && (legacy > 0 || nFail > 0 || nOps >= 6), Key: keyOf(term),
 			Human: map[string]interface{}{"ops": hops}})
 	}
+	// ---- APIs built on the recording operations, on logs over real commits ----
+	for ci := 0; ci < 30+c.n/10; ci++ {
+		m := newMemStore()
+		ids := newFixedIDs()
+		rsl.VerifResetCache()
+		tree, _ := m.EmptyTree()
+		tips := map[string]githash.Hash{}
+		hops := []string{}
+		push := func(ref string, rewrite bool) error {
+			parents := []githash.Hash{}
+			if cur, ok := tips[ref]; ok && !rewrite {
+				parents = []githash.Hash{cur}
+			}
+			cid, err := m.createCommit(tree, parents, fmt.Sprintf("c %d", len(m.created)), nil)
+			if err != nil {
+				return err
+			}
+			ids.target(cid)
+			tips[ref] = cid
+			hops = append(hops, fmt.Sprintf("record %s (rewritten=%v)", ref, rewrite))
+			return rsl.NewReferenceEntry(ref, cid).Commit(m, false)
+		}
+		n := 2 + r.Intn(6)
+		for k := 0; k < n; k++ {
+			if err := push(c04Refs[r.Intn(2)], k > 0 && r.Intn(3) == 0); err != nil {
+				return err
+			}
+		}
+		target := c04Refs[r.Intn(2)]
+		if err := push(target, r.Intn(4) != 0); err != nil { // usually a rewrite of the target ref ...
+			return err
+		}
+		for k := r.Intn(3); k > 0; k-- { // ... followed by entries for other refs
+			if err := push(c04Refs[2], false); err != nil {
+				return err
+			}
+		}
+		tip0, _ := m.GetReference(rsl.Ref)
+		g0, err := walkGraph(m, tip0)
+		if err != nil {
+			return err
+		}
+		before := coqStore(g0, ids.idMap)
+		rsl.VerifResetCache()
+		aerr := rsl.SkipAllInvalidReferenceEntriesForRef(m, target, false)
+		rsl.VerifResetCache()
+		// one more recording operation on top, so that numbering continues from whatever was written
+		if err := push(c04Refs[2], false); err != nil {
+			return err
+		}
+		tip1, _ := m.GetReference(rsl.Ref)
+		g1, err := walkGraph(m, tip1)
+		if err != nil {
+			return err
+		}
+		term := fmt.Sprintf("(C03Api %s (Some %s) %s (Some %s) false)", before, ids.coq(tip0), coqStore(g1, ids.idMap), ids.coq(tip1))
+		c.add(term, sideCase{Class: "api/skip-rewritten", Nontrivial: len(g1) > len(g0)+1, Key: keyOf(term),
+			Human: map[string]interface{}{"ops": hops, "SkipAllInvalidReferenceEntriesForRef": fmt.Sprintf("%s => %v", target, aerr), "entries_before": len(g0), "entries_after": len(g1)}})
+	}
 	return nil
 }
